@@ -456,6 +456,10 @@ func c18Build(c *core.Ctx, r *rng.R) (*document.Document, *c18Model) {
 		if t, err := d.AddTable(&document.TableConfig{Rows: 2 + tail, Cols: cols, Width: 6000}); err == nil && t != nil {
 			t.SetCellText(0, 0, "⟦loophead⟧ Key")
 			t.SetCellText(0, cols-1, "Val")
+			if r.Bool() {
+				// ordinary placeholders in the rows around the loop row
+				t.SetCellText(0, cols-1, "Val {{v0}}")
+			}
 			for cidx := 0; cidx < cols; cidx++ {
 				txt := m.loopCols[cidx]
 				if cidx == 0 {
@@ -475,12 +479,15 @@ func c18Build(c *core.Ctx, r *rng.R) (*document.Document, *c18Model) {
 				}
 			}
 			for i := 0; i < tail; i++ {
-				t.SetCellText(2+i, 0, fmt.Sprintf("⟦looptail%d⟧ TOTAL", i))
+				t.SetCellText(2+i, 0, fmt.Sprintf("⟦looptail%d⟧ TOTAL", i)+[]string{"", " {{v1}}", " of {{v2}}"}[r.Intn(3)])
 				t.SetCellText(2+i, cols-1, fmt.Sprint(100+i))
 			}
 		}
 		for i, n := 0, r.Range(0, 3); i < n; i++ {
 			it := map[string]interface{}{"k": fmt.Sprintf("key%d", i), "val": c18Values[r.Intn(5)]}
+			if r.Chance(1, 5) {
+				it["val"] = []string{"{{k}}", "{{o1}}", "see {{o2}}"}[r.Intn(3)] // a value that looks like another field's placeholder: still a value
+			}
 			// optional fields: items of one list need not have the same key set
 			for _, f := range []string{"o1", "o2"} {
 				if r.Chance(3, 5) {
@@ -529,6 +536,12 @@ func c18Build(c *core.Ctx, r *rng.R) (*document.Document, *c18Model) {
 				m.imgCell = true
 				t.SetCellText(0, 0, "⟦imgtbl⟧ picture:")
 				t.SetCellText(0, 1, ph())
+				if r.Chance(1, 3) {
+					// and one in a table nested in the first cell
+					if nt, err := t.AddNestedTable(0, 0, &document.TableConfig{Rows: 1, Cols: 1, Width: 2000}); err == nil && nt != nil {
+						nt.SetCellText(0, 0, ph())
+					}
+				}
 			}
 		}
 		p := newPara("body")
@@ -792,7 +805,19 @@ func c18Case(c *core.Ctx) *core.Result {
 		if bt != nil {
 			res.Count("loop_tables_compared", 1)
 			var want [][]string
-			want = append(want, bt[0])
+			plain := func(row []string) []string {
+				out := make([]string, len(row))
+				for i, txt := range row {
+					out[i] = regexp.MustCompile(`\{\{(\w+)\}\}`).ReplaceAllStringFunc(txt, func(mm string) string {
+						if v, ok := m.vars[mm[2:len(mm)-2]]; ok {
+							return xmlCarried(v)
+						}
+						return mm
+					})
+				}
+				return out
+			}
+			want = append(want, plain(bt[0]))
 			subst := func(txt string, it map[string]interface{}) string {
 				return regexp.MustCompile(`\{\{(\w+)\}\}`).ReplaceAllStringFunc(txt, func(mm string) string {
 					if v, ok := it[mm[2:len(mm)-2]]; ok {
@@ -812,7 +837,9 @@ func c18Case(c *core.Ctx) *core.Result {
 				}
 				want = append(want, row)
 			}
-			want = append(want, bt[2:]...)
+			for _, row := range bt[2:] {
+				want = append(want, plain(row))
+			}
 			cls := fmt.Sprintf("loop-table/items=%d/rows-after=%d", min2(len(m.items), 2), min2(len(bt)-2, 1))
 			if m.loopNested != nil {
 				cls += "/nested-table-in-loop-row"
@@ -1002,7 +1029,7 @@ func init() {
 	core.Register(&core.Check{
 		ID:    "C18",
 		Level: "exploration",
-		Rule: "base documents built through the API: body paragraphs, table cells and nested-table cells whose text (unique token + literals incl. single braces and CJK + 0-3 placeholders) is cut into 1-4 runs of differing formatting, two thirds of the multi-run paragraphs with a run boundary forced inside a placeholder, one boundary in five holding an additional run without text (formatting only; a zero-length piece, also inside a placeholder); paragraph properties, page-break runs, text runs that carry a break themselves, a loop table (header row, {{#each}} row, 0-2 fixed rows, 0-3 items), image placeholders (three names with a picture each; alone in a paragraph or with text before/after, two in one paragraph, several paragraphs in a row, in a table cell directly behind), header and footer with one or two placeholders each (every second case with a header: the package is rewritten so that header and/or footer placeholders are split over two runs at a random offset, also between the two opening braces, then opened), page settings; data for about two thirds of the names incl. XML metacharacters, empty and directive-like values. " +
+		Rule: "base documents built through the API: body paragraphs, table cells and nested-table cells whose text (unique token + literals incl. single braces and CJK + 0-3 placeholders) is cut into 1-4 runs of differing formatting, two thirds of the multi-run paragraphs with a run boundary forced inside a placeholder, one boundary in five holding an additional run without text (formatting only; a zero-length piece, also inside a placeholder); paragraph properties, page-break runs, text runs that carry a break themselves, a loop table (header row, {{#each}} row, 0-2 fixed rows, 0-3 items; ordinary placeholders in the header and fixed rows; item values that look like another field's placeholder), image placeholders (three names with a picture each; alone in a paragraph or with text before/after, two in one paragraph, several paragraphs in a row, in a table cell directly behind and in a table nested in that cell), header and footer with one or two placeholders each (every second case with a header: the package is rewritten so that header and/or footer placeholders are split over two runs at a random offset, also between the two opening braces, then opened), page settings; data for about two thirds of the names incl. XML metacharacters, empty and directive-like values. " +
 			"Oracle on the saved rendered document, read independently and compared with the saved base document: per paragraph the text after reference substitution, the run formatting of every literal character (value characters are free), w:pPr, w:br count; body child sequence, w:sectPr, loop table rows, header/footer text, the stream of text and pictures (identified by their bytes) a reader meets in the body paragraphs and in the picture row equals the base document's with placeholders replaced, untouched parts byte/canonically equal. Non-trivial: >=2 paragraphs compared; distinct = paragraph texts + data.",
 		Cases:         func(t string) int { return tierN(t, 8000, 120000) },
 		Run:           c18Case,
